@@ -2,6 +2,7 @@ SPECIFICATION Spec
 CONSTANTS
   Checks = {"slices"}
   TraceFile = "trace.ndjson"
+  Deviations = {}
 CONSTRAINT HighWater
 POSTCONDITION Accepted
 CHECK_DEADLOCK FALSE
